@@ -863,4 +863,81 @@ theorem ref_case (p : Prog) (rest : Kids) (ihp : ProgOK p) (ihr : KidsOK rest) :
   · simp [st5, st1]
   · simp [c5, c3, c1]
 
+
+theorem itemFrames_climbable (its : List LItem) : ∀ f ∈ itemFrames its, f.climbable = true := by
+  intro f hf
+  simp only [itemFrames, List.mem_map] at hf
+  obtain ⟨it, _, rfl⟩ := hf
+  simp [Frame.climbable]
+
+/-- an `alternative` (`k = alt`) or `next_rule` (`k = next`) branch followed by the rest of the block -/
+theorem altnext_case (k : SK) (hk : k ≠ .exceptIf) (op : Op) (p : Prog) (rest : Kids)
+    (hop : ∀ s : BState, s.step Quirks.today op = s.doAltOrNext Quirks.today k.toNK p.blk)
+    (ihp : ProgOK p) (ihr : KidsOK rest)
+    (s : BState) (D C : List Frame) (i b : Nat) (cs st : List Nat)
+    (hi : Inv s (plug (D ++ C) (.leaf i b cs))) (hs : s.stack = i :: st)
+    (hD : ∀ f ∈ D, f.climbable = true) (hC : stopAt C) :
+    ∃ s', BState.run Quirks.today s (op :: Op.enter :: (p.ops ++ Op.exit :: rest.ops)) = some s' ∧
+      Inv s' (plug C (attach (plug D (plug
+          (rest.lay (p.layBranch (s.nodes.length + 2) s.nodes.length).2.2).1 (.leaf i b cs)))
+        ((k, s.nodes.length + 1, (p.layBranch (s.nodes.length + 2) s.nodes.length).1) ::
+          ((p.layBranch (s.nodes.length + 2) s.nodes.length).2.1 ++
+            (rest.lay (p.layBranch (s.nodes.length + 2) s.nodes.length).2.2).2.1)))) ∧
+      s'.nodes.length = (rest.lay (p.layBranch (s.nodes.length + 2) s.nodes.length).2.2).2.2 ∧
+      s'.stack = s.stack ∧ s'.cachedRoot = s.cachedRoot := by
+  have hkc : ∀ (hl : Bool) (sib : Sel) (n : Nat), (Frame.mk k n hl sib).climbable = true := by
+    intro hl sib n; cases k <;> simp [Frame.climbable] at hk ⊢
+  obtain ⟨s1, e1, i1, l1, st1, c1, la1⟩ := alt_step s D C i b cs st k p.blk hi hs hD hC
+  have i1' : Inv s1 (plug (⟨k, s.nodes.length + 1, false, plug D (.leaf i b cs)⟩ :: C)
+      (.leaf s.nodes.length p.blk [])) := by simpa [plug, Frame.fill] using i1
+  have e2 := enter_step s1 _ _ _ _ _ i1' la1
+  have i2 : Inv { s1 with stack := s.nodes.length :: s1.stack }
+      (plug ([⟨k, s.nodes.length + 1, false, plug D (.leaf i b cs)⟩] ++ C)
+        (.leaf s.nodes.length p.blk [])) := i1'.of_nodes _ rfl
+  obtain ⟨s3, e3, i3, l3, st3, c3⟩ := ihp _ _ C _ (s1.stack) i2 rfl
+    (by intro f hf; simp only [List.mem_singleton] at hf; subst hf; exact hkc _ _ _) hC
+  simp only [l1] at i3 l3
+  have e4 := exit_run s3 _ _ st3
+  have i3' : Inv s3 (plug ((D ++ ⟨k, s.nodes.length + 1, true,
+        (p.layBranch (s.nodes.length + 2) s.nodes.length).1⟩ ::
+          itemFrames (p.layBranch (s.nodes.length + 2) s.nodes.length).2.1) ++ C) (.leaf i b cs)) := by
+    simpa [plug, plug_append, Frame.fill, plug_itemFrames] using i3
+  have i4 := i3'.of_nodes { s3 with stack := s1.stack } rfl
+  obtain ⟨s5, e5, i5, l5, st5, c5⟩ := ihr _ _ C i b cs st i4 (by simp [st1, hs])
+    (by intro f hf; simp only [List.mem_append, List.mem_cons] at hf
+        rcases hf with hf | rfl | hf
+        · exact hD f hf
+        · exact hkc _ _ _
+        · exact itemFrames_climbable _ f hf) hC
+  simp only [l3] at i5 l5
+  refine ⟨s5, ?_, ?_, l5, ?_, ?_⟩
+  · have e1' : s.step Quirks.today op = some s1 := (hop s).trans e1
+    simp only [BState.run, e1', e2]
+    rw [run_app, e3]
+    simp only [Option.bind_some, BState.run, e4]
+    exact e5
+  · simpa [plug, plug_append, Frame.fill, plug_itemFrames, attach_append, attach] using i5
+  · simp [st5, st1]
+  · simp [c5, c3, c1]
+
+theorem alt_case (p : Prog) (rest : Kids) (ihp : ProgOK p) (ihr : KidsOK rest) : KidsOK (.cons .alt p rest) := by
+  intro s D C i b cs st hi hs hD hC
+  have := altnext_case .alt (by decide) (.alternative p.blk) p rest (fun _ => rfl) ihp ihr s D C i b cs st hi hs hD hC
+  simpa [Kids.ops, Kids.lay] using this
+
+theorem next_case (p : Prog) (rest : Kids) (ihp : ProgOK p) (ihr : KidsOK rest) : KidsOK (.cons .next p rest) := by
+  intro s D C i b cs st hi hs hD hC
+  have := altnext_case .next (by decide) (.next p.blk) p rest (fun _ => rfl) ihp ihr s D C i b cs st hi hs hD hC
+  simpa [Kids.ops, Kids.lay] using this
+
+mutual
+theorem Prog.run_lay : ∀ p : Prog, ProgOK p
+  | .mk b kids => prog_case b kids (Kids.run_lay kids)
+theorem Kids.run_lay : ∀ kids : Kids, KidsOK kids
+  | .nil => nil_case
+  | .cons .ref p rest => ref_case p rest (Prog.run_lay p) (Kids.run_lay rest)
+  | .cons .alt p rest => alt_case p rest (Prog.run_lay p) (Kids.run_lay rest)
+  | .cons .next p rest => next_case p rest (Prog.run_lay p) (Kids.run_lay rest)
+end
+
 end KrroodVerif.Rdr
